@@ -246,6 +246,9 @@ func (mT *provider) Shutdown() error {
 			if err := mT.persist.Store(encoded); err != nil {
 				mT.log.Error("Couldn't persist retained messages", zap.Error(err))
 			}
+		} else if err := mT.persist.Wipe(); err != nil {
+			// nothing is retained any more: what an earlier shutdown has stored must not come back
+			mT.log.Error("Couldn't wipe persisted retained messages", zap.Error(err))
 		}
 	}
 
